@@ -403,7 +403,8 @@ to the evolving phase (`num_generations = 1`) although no evolved individual was
 history does not show a complete initial population — which happens only when `_evolve` raised inside
 the `propose` that made the switch (a failed `propose` leaves no trace in the history). -/
 def F89State (sz : Option Nat) (l : Live) : Prop :=
-  ∃ np nf si pop pend, l.st = .evolution np nf si true 1 pop pend ∧ NoNonInit l.hist ∧ doneInit sz l.hist = false
+  ∃ np nf si pop pend, l.st = .evolution np nf si true 1 pop pend ∧ NoNonInit l.hist
+    ∧ doneInit sz (fedCount l.hist) = false
 
 /-- FULL statement: Evolution recovers counters, population AND generation counter. -/
 def C15_recover_evolution_generations_Full (env : Env) : Prop :=
@@ -430,15 +431,16 @@ theorem C15_recover_evolution_generations_partial (env : Env) (hq : env.q = Quir
   subst hini; subst hg
   have hg' : env.q.evoInitGenBump = false := by rw [hq]; rfl
   have ho : env.q.evoProposalOrder = false := by rw [hq]; rfl
-  obtain ⟨si', hrec⟩ := recover_evolution_full env hg' ho init hb sz _ hent
+  have hdc : env.q.evoInitDonePerCall = false := by rw [hq]; rfl
+  obtain ⟨si', hrec⟩ := recover_evolution_full env hg' ho hdc init hb sz _ hent
   rw [hpop] at hrec
-  refine ⟨_, _, g, pop, si, ini, pend, si', doneInit sz (runLive env (.evolution init sz) run).hist, [], hst, ?_⟩
+  refine ⟨_, _, g, pop, si, ini, pend, si', doneInit sz (fedCount (runLive env (.evolution init sz) run).hist), [], hst, ?_⟩
   rw [hrec]
   -- it remains to show that the recovered generation counter is `g`
   have hup := gFold_upper (sortByFeedback (runLive env (.evolution init sz) run).hist) 0
   have hat := gFold_attained (sortByFeedback (runLive env (.evolution init sz) run).hist) 0
   generalize (sortByFeedback (runLive env (.evolution init sz) run).hist).foldl gStep 0 = G at hup hat ⊢
-  have hgeq : (if (doneInit sz (runLive env (.evolution init sz) run).hist && decide (G = 0)) = true then 1 else G) = g := by
+  have hgeq : (if (doneInit sz (fedCount (runLive env (.evolution init sz) run).hist) && decide (G = 0)) = true then 1 else G) = g := by
     cases ini with
     | false =>
       obtain ⟨hg0, _, hno, hlt⟩ := hb0 rfl
@@ -446,7 +448,7 @@ theorem C15_recover_evolution_generations_partial (env : Env) (hq : env.q = Quir
         rcases hat with h | ⟨e, he, hn, _⟩
         · exact h
         · exact absurd hn (hno e ((mem_sortByFeedback e _).mp he))
-      have hdone : doneInit sz (runLive env (.evolution init sz) run).hist = false :=
+      have hdone : doneInit sz (fedCount (runLive env (.evolution init sz) run).hist) = false :=
         doneInit_false_of_lt sz _ hlt
       simp [hG, hdone, hg0]
     | true =>
@@ -464,8 +466,8 @@ theorem C15_recover_evolution_generations_partial (env : Env) (hq : env.q = Quir
           rcases hat with h | ⟨e, he, hn, _⟩
           · exact h
           · exact absurd hn (hno e ((mem_sortByFeedback e _).mp he))
-        have hdone : doneInit sz (runLive env (.evolution init sz) run).hist = true := by
-          cases hd : doneInit sz (runLive env (.evolution init sz) run).hist with
+        have hdone : doneInit sz (fedCount (runLive env (.evolution init sz) run).hist) = true := by
+          cases hd : doneInit sz (fedCount (runLive env (.evolution init sz) run).hist) with
           | true => rfl
           | false =>
             exfalso
@@ -550,6 +552,145 @@ theorem C15_recover_dedup_evolution (env : Env) (hq : env.q = Quirks.patched) (i
     simp only [Nat.zero_add]
   · intro k
     exact cacheOfEntries_perm _ _ ((perm_sortByFeedback _).filter _) k
+
+/-! ### Chunked recovery: the history may arrive in several `recover()` calls -/
+
+/-- Sweeping, from ANY state: recovering `h₁ ++ h₂` in one call = recovering `h₁`, then `h₂`. -/
+theorem C15_recover_append_sweeping (env : Env) (s : St) (h₁ h₂ : Hist) :
+    recover env .sweeping s (h₁ ++ h₂) = match recover env .sweeping s h₁ with
+      | .error e => .error e
+      | .ok s' => recover env .sweeping s' h₂ := by
+  simp only [recover]; exact baseRecover_append env .sweeping s h₁ h₂
+
+/-- Random (seeded or not), from any state. -/
+theorem C15_recover_append_random (env : Env) (seed : Nat) (sd : Bool) (s : St) (h₁ h₂ : Hist) :
+    recover env (.random seed sd) s (h₁ ++ h₂) = match recover env (.random seed sd) s h₁ with
+      | .error e => .error e
+      | .ok s' => recover env (.random seed sd) s' h₂ := by
+  simp only [recover]; exact baseRecover_append env (.random seed sd) s h₁ h₂
+
+/-- Deduping over Sweeping (repaired source), from any well-shaped state, on histories whose DNAs carry
+their `dedup_key` (as every persisted history does, `live_dedup_nofb`). -/
+theorem C15_recover_append_dedup_sweeping (env : Env) (hq : env.q.dedupForwardsReplay = false)
+    (hid md ma : Nat) (au : Bool) (np nf a b : Nat) (l : Option Nat) (c : Cache) (h₁ h₂ : Hist)
+    (hk : AllKeyed (h₁ ++ h₂)) :
+    recover env (.deduping .sweeping hid md ma au) (.deduping np nf (.sweeping a b l) c) (h₁ ++ h₂)
+      = match recover env (.deduping .sweeping hid md ma au) (.deduping np nf (.sweeping a b l) c) h₁ with
+        | .error e => .error e
+        | .ok s' => recover env (.deduping .sweeping hid md ma au) s' h₂ := by
+  obtain ⟨hk1, hk2⟩ := allKeyed_append hk
+  rw [recover_dedup_sweeping env hq hid md ma au _ _ _ _ _ _ _ hk,
+      recover_dedup_sweeping env hq hid md ma au _ _ _ _ _ _ _ hk1]
+  simp only
+  rw [recover_dedup_sweeping env hq hid md ma au _ _ _ _ _ _ _ hk2]
+  simp only [List.length_append, fedCount_append, lastOr_append, keysOf_append, cacheOfKeys_append, Nat.add_assoc]
+
+/-- Deduping over Random (repaired source). -/
+theorem C15_recover_append_dedup_random (env : Env) (hq : env.q.dedupForwardsReplay = false) (seed : Nat) (sd : Bool)
+    (hid md ma : Nat) (au : Bool) (np nf a b pos : Nat) (c : Cache) (h₁ h₂ : Hist)
+    (hk : AllKeyed (h₁ ++ h₂)) :
+    recover env (.deduping (.random seed sd) hid md ma au) (.deduping np nf (.random a b pos) c) (h₁ ++ h₂)
+      = match recover env (.deduping (.random seed sd) hid md ma au) (.deduping np nf (.random a b pos) c) h₁ with
+        | .error e => .error e
+        | .ok s' => recover env (.deduping (.random seed sd) hid md ma au) s' h₂ := by
+  obtain ⟨hk1, hk2⟩ := allKeyed_append hk
+  rw [recover_dedup_random env hq seed sd hid md ma au _ _ _ _ _ _ _ hk,
+      recover_dedup_random env hq seed sd hid md ma au _ _ _ _ _ _ _ hk1]
+  simp only
+  rw [recover_dedup_random env hq seed sd hid md ma au _ _ _ _ _ _ _ hk2]
+  cases sd <;>
+    simp only [List.length_append, fedCount_append, keysOf_append, cacheOfKeys_append, Nat.add_assoc,
+      Bool.false_eq_true, ↓reduceIte]
+
+/-- Any number of `recover()` calls: the chunking of the history is unobservable, for Sweeping and
+Random from any state… -/
+theorem C15_recover_chunks_sweeping (env : Env) (s : St) (hs : List Hist) :
+    recoverChunks env .sweeping s hs = recover env .sweeping s hs.flatten := by
+  induction hs generalizing s with
+  | nil => simp [recoverChunks, recover, baseRecover, foldE]
+  | cons h hs ih =>
+    simp only [recoverChunks, List.flatten_cons, C15_recover_append_sweeping]
+    cases recover env .sweeping s h with
+    | error e => rfl
+    | ok s' => exact ih s'
+
+theorem C15_recover_chunks_random (env : Env) (seed : Nat) (sd : Bool) (s : St) (hs : List Hist) :
+    recoverChunks env (.random seed sd) s hs = recover env (.random seed sd) s hs.flatten := by
+  induction hs generalizing s with
+  | nil => simp [recoverChunks, recover, baseRecover, foldE]
+  | cons h hs ih =>
+    simp only [recoverChunks, List.flatten_cons, C15_recover_append_random]
+    cases recover env (.random seed sd) s h with
+    | error e => rfl
+    | ok s' => exact ih s'
+
+/-- …and for Deduping over them (repaired source), on keyed histories. -/
+theorem C15_recover_chunks_dedup_sweeping (env : Env) (hq : env.q.dedupForwardsReplay = false)
+    (hid md ma : Nat) (au : Bool) (hs : List Hist) (hk : AllKeyed hs.flatten)
+    (np nf a b : Nat) (l : Option Nat) (c : Cache) :
+    recoverChunks env (.deduping .sweeping hid md ma au) (.deduping np nf (.sweeping a b l) c) hs
+      = recover env (.deduping .sweeping hid md ma au) (.deduping np nf (.sweeping a b l) c) hs.flatten := by
+  induction hs generalizing np nf a b l c with
+  | nil =>
+    rw [recover_dedup_sweeping env hq hid md ma au _ _ _ _ _ _ _ (fun e he => by simp at he)]
+    simp [recoverChunks, fedCount, lastOr, keysOf, cacheOfKeys]
+  | cons h hs ih =>
+    rw [List.flatten_cons] at hk ⊢
+    obtain ⟨hk1, hk2⟩ := allKeyed_append hk
+    rw [C15_recover_append_dedup_sweeping env hq hid md ma au _ _ _ _ _ _ _ _ hk]
+    simp only [recoverChunks]
+    rw [recover_dedup_sweeping env hq hid md ma au _ _ _ _ _ _ _ hk1]
+    exact ih hk2 _ _ _ _ _ _
+
+theorem C15_recover_chunks_dedup_random (env : Env) (hq : env.q.dedupForwardsReplay = false) (seed : Nat) (sd : Bool)
+    (hid md ma : Nat) (au : Bool) (hs : List Hist) (hk : AllKeyed hs.flatten)
+    (np nf a b pos : Nat) (c : Cache) :
+    recoverChunks env (.deduping (.random seed sd) hid md ma au) (.deduping np nf (.random a b pos) c) hs
+      = recover env (.deduping (.random seed sd) hid md ma au) (.deduping np nf (.random a b pos) c) hs.flatten := by
+  induction hs generalizing np nf a b pos c with
+  | nil =>
+    rw [recover_dedup_random env hq seed sd hid md ma au _ _ _ _ _ _ _ (fun e he => by simp at he)]
+    cases sd <;> simp [recoverChunks, fedCount, keysOf, cacheOfKeys]
+  | cons h hs ih =>
+    rw [List.flatten_cons] at hk ⊢
+    obtain ⟨hk1, hk2⟩ := allKeyed_append hk
+    rw [C15_recover_append_dedup_random env hq seed sd hid md ma au _ _ _ _ _ _ _ _ hk]
+    simp only [recoverChunks]
+    rw [recover_dedup_random env hq seed sd hid md ma au _ _ _ _ _ _ _ hk1]
+    exact ih hk2 _ _ _ _ _ _
+
+/-- Headline for chunked recovery (current source): however the backend cuts the persisted history
+of ANY run into consecutive `recover()` calls, a fresh Sweeping / Random / Deduping-over-them instance
+reaches the state a single call reaches — hence (by `C15_recover`) the observable state of the
+uninterrupted instance, and (by the continuation theorems) its future proposals. -/
+theorem C15_recover_chunked (env : Env) (hq : env.q = currentQuirks) (a : Algo)
+    (ha : IsBase a ∨ ∃ inner hid md ma au, IsBase inner ∧ a = .deduping inner hid md ma au)
+    (run : List Event) (chunks : List Hist) (hc : chunks.flatten = (runLive env a run).hist) :
+    recoverChunks env a (setup a) chunks = recover env a (setup a) (runLive env a run).hist := by
+  have hq' : env.q.dedupForwardsReplay = false := by rw [hq, C15_quirks_patched]; rfl
+  rcases ha with hb | ⟨inner, hid, md, ma, au, hb, rfl⟩
+  · rcases hb with rfl | ⟨seed, sd, rfl⟩
+    · rw [C15_recover_chunks_sweeping, hc]
+    · rw [C15_recover_chunks_random, hc]
+  · have hkeyed : AllKeyed chunks.flatten := by
+      rw [hc]
+      have hnf : needsFeedback inner = false := by rcases hb with rfl | ⟨seed, sd, rfl⟩ <;> rfl
+      exact (live_dedup_nofb env inner hid md ma au hnf run).2
+    rcases hb with rfl | ⟨seed, sd, rfl⟩
+    · simp only [setup]
+      rw [C15_recover_chunks_dedup_sweeping env hq' hid md ma au chunks hkeyed, hc]
+    · simp only [setup]
+      rw [C15_recover_chunks_dedup_random env hq' seed sd hid md ma au chunks hkeyed, hc]
+
+/-- The same is FALSE for Evolution: feedbacks that arrive in an order crossing the boundary of two
+`recover()` calls are replayed per call (finding F166) — two proposals, the second one fed back first. -/
+theorem C15_recover_chunks_evolution_counterexample :
+    popSummary (recoverChunks (f35Env .patched) f35Algo (setup f35Algo)
+        [(runLive (f35Env .patched) f35Algo [.propose, .propose, .feedback 1 5, .feedback 0 3]).hist.take 1,
+         (runLive (f35Env .patched) f35Algo [.propose, .propose, .feedback 1 5, .feedback 0 3]).hist.drop 1])
+      ≠ popSummary (recover (f35Env .patched) f35Algo (setup f35Algo)
+        (runLive (f35Env .patched) f35Algo [.propose, .propose, .feedback 1 5, .feedback 0 3]).hist) := by
+  decide
 
 /-! ### The headline statement: `observe (recover (setup a) (persist run)) = observe (runLive (setup a) run)` -/
 
